@@ -5,7 +5,7 @@ PID = "C11"
 COQ_FILES = ["Model/Base.v", "Model/BpSpec.v", "Model/BpMachine.v", "Proofs/BpMachineProofs.v", "Properties/C11.v"]
 RULES[PID] = ("e2e leg, two families, every history in a forked child with a watchdog. (1) world histories on a fixed debuggee (0 or 3 worker threads, optional "
               "wait-for-flag-file mode): the full grid launched/attached x single/multi-threaded x stop kind (not started or just attached, at a breakpoint "
-              "with a hardware watchpoint armed, after stepi, after exit) x ending (drop, detach + drop), then random fill; attached = the harness "
+              "with a hardware watchpoint armed, after stepi, after exit) x ending (drop, detach + drop), then random fill, then a stress tail (40 quick / 300 thorough attached 3-thread histories ending at a breakpoint or after stepi, run while spinner threads keep all cores busy so that traps raised but not yet reported exist at the moment of release); attached = the harness "
               "spawns the program itself and uses DebuggerBuilder::build_attached. Afterwards the harness inspects the world itself: /proc/<pid> gone "
               "(state Z = not reaped) for launched programs; for released ones state R/S, no thread in t/T, TracerPid 0 for every task, executable "
               "mapping byte-equal to the ELF file through /proc/<pid>/mem, DR7 enable bits zero in every thread (own PTRACE_SEIZE + PEEKUSER), then the "
@@ -32,8 +32,8 @@ def run(tier, seed):
     if tier == "thorough" and ok:
         ctx.coqchk()
     if ctx.harness_build():
-        world, progs, hist = (32, 2, 5) if tier == "quick" else (160, 12, 10)
-        s = run_classified_leg(ctx, "c11-e2e", [seed, world, ctx.cases_dir, ctx.scratch, progs, hist],
+        world, progs, hist, stress = (32, 2, 5, 40) if tier == "quick" else (160, 12, 10, 300)
+        s = run_classified_leg(ctx, "c11-e2e", [seed, world, ctx.cases_dir, ctx.scratch, progs, hist, stress],
                                "state of the world after quit / drop / detach / restart", classify)
         if s is not None:
             per_key = {}
@@ -42,7 +42,7 @@ def run(tier, seed):
                 per_key[k] = per_key.get(k, 0) + 1
                 if per_key[k] > 3:
                     continue
-                ctx.violate("impl-violates-spec", "c11-e2e", {"failure": f, "replay": "c11-e2e %s %s <cases> <scratch> %s %s" % (seed, world, progs, hist)},
+                ctx.violate("impl-violates-spec", "c11-e2e", {"failure": f, "replay": "c11-e2e %s %s <cases> <scratch> %s %s %s" % (seed, world, progs, hist, stress)},
                             key=k, found_input=True)
             ctx.notes.append("c11-e2e failure keys: %s; world checks evaluated: %s" % (s.get("failure_keys"), s.get("checks")))
     ctx.refuted += [
